@@ -117,8 +117,33 @@ def h_generators(P, gen, n_pop, d=1):
     tree = mk_tree(levels)
     if gen == "best":
         g = sg.BestPerDeme()
+    elif gen == "nbc-local":
+        g = sg.NBCGeneratorWithLocalMethod(2.0, 1.0)
     else:
         g = sg.NBC_Generator(2.0, 1.0)
+    if gen == "nbc-local":
+        # levels[:-2] as the NBC generator; last-but-one level: the best of every deme that finished in this very metaepoch
+        tree.metaepoch_count = 2
+        for dm in levels[1]:
+            dm._started_at = 1 if dm.id == "0" else 0  # '0' finished just now (1 + 1 recorded metaepoch == 2), '1' earlier
+        pop = levels[0][0].current_population
+        for a in range(len(pop)):
+            for b in range(a + 1, len(pop)):
+                P.assume(lor(*[pop[a].genome[j] != pop[b].genome[j] for j in range(d)]))
+        out = g(tree)
+        want = [levels[0][0]] if bool(levels[0][0]._active) else []
+        for dm in levels[1]:
+            if (not bool(dm._active)) and dm.started_at + len(dm._history) == tree.metaepoch_count:
+                want.append(dm)
+        P.oblige("generator.keys_local_method", set(id(k) for k in out.keys()) == set(id(e) for e in want))
+        for dm, cnd in out.items():
+            if dm.level == 1:
+                P.oblige("generator.local_offers_best_of_finished_deme", len(cnd.individuals) == 1 and cnd.individuals[0] is dm.best_individual)
+                for y in dm.all_individuals:
+                    P.oblige("generator.local_best_is_best", not_worse(cnd.individuals[0].fitness, y.fitness, maximize))
+            else:
+                P.oblige("generator.candidates_from_current_population", all(any(x is y for y in dm.current_population) for x in cnd.individuals))
+        return
     if gen != "best":
         for lvl in levels[:2]:
             for dm in lvl:
@@ -168,7 +193,7 @@ def h_chain(P, n, L):
 BOUNDS = {"quick": {"demelimit": "n<=4, limit 1..3", "levellimit": "<=2 parents x <=2 candidates, <=3 existing demes, L 1..3",
                     "skipsame": "<=2 candidates, <=2 seeds, d<=2", "generators": "3-level tree, 4 demes, populations of 2-3"},
           "thorough": {"demelimit": "n<=5", "levellimit": "<=3 parents x <=2 candidates"}}
-OUTSIDE = ["NBCGeneratorWithLocalMethod (covered only through C07's seed provenance in tree steps)", "MahalanobisFarEnough",
+OUTSIDE = ["MahalanobisFarEnough",
            "candidate sets larger than the bounds"]
 ASSUMPTIONS = ["profile 'real': fitness values and genomes are mathematical reals (ordering and np.isclose only; no NaN, +-inf only as order-extreme values)"]
 
@@ -190,6 +215,7 @@ def cases(tier):
         cs.append(dict(name=f"skipsame.c{nc}.s{ns}.d{d}", fn=h_skipsame, params=dict(n_cands=nc, n_seeds=ns, d=d), **R))
     cs.append(dict(name="generators.best", fn=h_generators, params=dict(gen="best", n_pop=3), weight=5, **R))
     cs.append(dict(name="generators.nbc", fn=h_generators, params=dict(gen="nbc", n_pop=2), weight=5, **R))
+    cs.append(dict(name="generators.nbc-local", fn=h_generators, params=dict(gen="nbc-local", n_pop=2), weight=5, **R))
     for L in (1, 2):
         cs.append(dict(name=f"chain.L{L}", fn=h_chain, params=dict(n=3, L=L), weight=5, **R))
     return cs
